@@ -2,7 +2,7 @@
 import os, shutil
 import vlib
 
-INV = ["RoundTrips", "EveryProtocolRetrievable", "Canonical", "AgreesWithExpected", "ExportCase"]
+INV = ["RoundTrips", "EveryProtocolRetrievable", "Canonical", "AgreesWithExpected", "CraftedRejected", "ExportCase"]
 
 
 def run(tier, seed, replay=None):
